@@ -914,6 +914,6 @@ fn declare_array_size(
         quote!(int $(val.name())Size = $(t.gen_expr(root));)
     } else {
         // Assume array is the last field in the packet and consume all remaining bytes.
-        quote!(int $(val.name())Size = buf.limit();)
+        quote!(int $(val.name())Size = buf.remaining();)
     }
 }
